@@ -195,6 +195,7 @@ def sorted_search(facts, res):
     if primary is None:
         raise AnalysisBroken("SrcFirst: lexicographic form `a.k < b.k || (a.k == b.k && ...)` not recognised: %s" % facts.ntext(e)[:120])
     res.instance(R, "comparator", facts.loc(cmpf[0]), "SrcFirst orders by '%s' first" % primary)
+    forwarded = set()
     for fn in fns:
         body = tbf.body(fn)
         idx = fn["params"][0]["did"]
@@ -202,6 +203,23 @@ def sorted_search(facts, res):
         sorts = [c for c in walk(body) if c.get("k") == "CallExpr" and tbf.callee_name(c) == "sort"]
         searches = [c for c in walk(body) if c.get("k") == "CallExpr" and tbf.callee_name(c) in ("lower_bound", "upper_bound", "equal_range", "binary_search")]
         if not searches:
+            # one mapper written in terms of the other: a single call of the sibling that hands over the list, the groups, the working
+            # group and the target groups unchanged (the callback may be adapted) - it is judged through the sibling
+            sts = [x for x in kids(body) if x.get("k") not in ("NullStmt",)]
+            other = [g_ for g_ in fns if g_ is not fn]
+            c0 = strip(sts[0]) if len(sts) == 1 else None
+            if c0 is not None and c0.get("k") == "ExprWithCleanups" and kids(c0):
+                c0 = strip(kids(c0)[0])
+            if c0 is not None and c0.get("k") == "CallExpr" and tbf.callee_name(c0) == other[0]["name"] and len(tbf.call_args(c0)) == 5:
+                def _same(arg, par):
+                    x = strip(arg)
+                    if x.get("k") == "CallExpr" and tbf.callee_name(x) in ("move", "forward") and len(tbf.call_args(x)) == 1:
+                        x = strip(tbf.call_args(x)[0])
+                    return x.get("k") == "DeclRefExpr" and x.get("did") == par["did"]
+                if all(_same(a_, p_) for a_, p_ in list(zip(tbf.call_args(c0), fn["params"]))[:4]):
+                    res.instance(R, "%s forwards" % fn["qname"], facts.loc(c0), "forwards list, groups, working group and target groups unchanged to %s, which is checked" % other[0]["name"])
+                    forwarded.add(id(fn))
+                    continue
             raise AnalysisBroken("%s: no binary search found" % fn["qname"])
         good_sort = None
         for c in sorts:
@@ -239,7 +257,10 @@ def sorted_search(facts, res):
             raise AnalysisBroken("%s: %d keyed searches recognised (3 confirmed by reading)" % (fn["qname"], k))
         search_semantics(facts, res, fn, searches, idx, grp)
     cn = [(r"lambda@\d+", "lambda")]
-    cursor.compare(facts, res, R, fns[0], fns[1], "the two group mappers", cn, cn)
+    if len(forwarded) == 2:
+        raise AnalysisBroken("group mappers: each forwards to the other")
+    if not forwarded:
+        cursor.compare(facts, res, R, fns[0], fns[1], "the two group mappers", cn, cn)
 
 
 def mapper_exits(facts, res):
@@ -256,10 +277,16 @@ def mapper_exits(facts, res):
             raise AnalysisBroken("%s: %d five- and %d four-parameter definitions (1 and 1 confirmed by reading)" % (name, len(five), len(four)))
         fn = five[0]
         loops = [x for x in kids(tbf.body(fn)) if x.get("k") in ("WhileStmt", "ForStmt")]
-        if len(loops) != 1:
-            raise AnalysisBroken("%s: the walk over the list is not a single top-level loop" % fn["qname"])
-        n += mapexit.decide(facts, fn, res, R, fn["params"][0]["did"], fn["params"][1]["did"], loops[0])
-        after = kids(tbf.body(fn))[kids(tbf.body(fn)).index(loops[0]) + 1:]
+        sibling = "TbfMapIndexesAndBlocksIndexes" if name == "TbfMapIndexesAndBlocks" else "TbfMapIndexesAndBlocks"
+        sts5 = [x for x in kids(tbf.body(fn)) if x.get("k") != "NullStmt"]
+        if not loops and len(sts5) == 1 and [c for c in walk(sts5[0]) if c.get("k") == "CallExpr" and tbf.callee_name(c) == sibling and len(tbf.call_args(c)) == 5]:
+            # written in terms of the sibling mapper (a single unconditional call): no exit of its own before the walk; the sibling's are decided
+            res.instance(R, "%s forwards" % fn["qname"], facts.loc(sts5[0]), "single unconditional call of %s: no exit of its own" % sibling)
+            n += 1
+        else:
+            if len(loops) != 1:
+                raise AnalysisBroken("%s: the walk over the list is not a single top-level loop" % fn["qname"])
+            n += mapexit.decide(facts, fn, res, R, fn["params"][0]["did"], fn["params"][1]["did"], loops[0])
         fw = four[0]
         calls = [c for c in walk(tbf.body(fw)) if c.get("k") in ("CallExpr", "CXXMemberCallExpr") and tbf.callee_name(c) == name]
         if len(calls) != 1:
@@ -295,6 +322,7 @@ def search_semantics(facts, res, fn, searches, idx, grp):
     import mapexit
     R = "C01.4.sorted-search"
     D = range(4)
+    _locals = {v_["did"]: v_ for v_ in walk(tbf.body(fn)) if v_.get("k") == "VarDecl" and "did" in v_}
     elems = [("ELEM", a) for a in D]
     groups = [("GROUP", (s_, e_)) for s_ in D for e_ in D if s_ <= e_]
     vals = list(D)
@@ -336,16 +364,27 @@ def search_semantics(facts, res, fn, searches, idx, grp):
         # the searched value
         v = strip(a[2])
         vt = facts.ntext(v)
+
+        def _mentions(e, did, depth=0):
+            """the expression names `did`, directly or through a local reference / const local bound to an expression that does"""
+            for y in walk(e):
+                if y.get("k") == "DeclRefExpr":
+                    if y.get("did") == did:
+                        return True
+                    dv = _locals.get(y.get("did"))
+                    if dv is not None and kids(dv) and depth < 3 and _mentions(kids(dv)[0], did, depth + 1):
+                        return True
+            return False
         d = decl_of.get(id(c))
         if nm == "lower_bound" and over_idx:
             first_item = d
-            okv = v.get("k") in ("CallExpr", "CXXMemberCallExpr") and tbf.callee_name(v) == "getStartingSpacialIndex" and any(y.get("did") == grp for y in walk(v))
+            okv = v.get("k") in ("CallExpr", "CXXMemberCallExpr") and tbf.callee_name(v) == "getStartingSpacialIndex" and _mentions(v, grp)
             needv = "the current group's first index"
         elif nm == "lower_bound":
             okv = v.get("k") in ("MemberExpr", "CXXDependentScopeMemberExpr") and v.get("name") == "indexSrc" and first_item is not None and any(y.get("did") == first_item["did"] for y in walk(v))
             needv = "the source index of the interaction just found"
         else:
-            okv = v.get("k") in ("CallExpr", "CXXMemberCallExpr") and tbf.callee_name(v) == "getEndingSpacialIndex" and any(y.get("did") == grp for y in walk(v))
+            okv = v.get("k") in ("CallExpr", "CXXMemberCallExpr") and tbf.callee_name(v) == "getEndingSpacialIndex" and _mentions(v, grp)
             needv = "the current group's last index"
         if not okv:
             res.violation(R, f, fn["qname"], "value@%d" % c["l"][1], c["l"][1], "%s over the %s searches for `%s`, not for %s" % (nm, "list" if over_idx else "groups", vt[:80], needv))
@@ -356,7 +395,18 @@ def search_semantics(facts, res, fn, searches, idx, grp):
             raise AnalysisBroken("%s: the branch choosing between skipping groups and handing a batch over was not recognised" % fn["qname"])
         cond = [y for y in kids(ifs[0]) if y.get("k") != "DeclStmt"][0]
         g = mapexit.Guard(facts, fn, idx, grp)
-        cur = [y for y in walk(cond) if y.get("k") == "DeclRefExpr" and y.get("did") not in (idx, grp, first_item["did"])]
+        # the cursors of the condition (integer variables, set to 0: one group in the model); a local that names an element or a group
+        # (`auto& g = groups[cursor]`) is resolved through its initialiser, whose own cursors are bound the same way
+        cur, todo, seen_ = [], [cond], set()
+        while todo:
+            for y in walk(todo.pop()):
+                if y.get("k") == "DeclRefExpr" and y.get("did") not in (idx, grp, first_item["did"]) and y.get("did") not in seen_:
+                    seen_.add(y.get("did"))
+                    dv = g.decls.get(y.get("did"))
+                    if dv is not None and kids(dv) and not re.search(r"\b(long|int|size_t|ptrdiff_t|unsigned|short)\b", dv.get("t", "")):
+                        todo.append(kids(dv)[0])
+                    else:
+                        cur.append(y)
         wrong = None
         for (s_, e_) in [(s_, e_) for s_ in D for e_ in D if s_ <= e_]:
             for a_ in D:
